@@ -1,9 +1,12 @@
 import Bch.Proofs.GcsSpec
 import Bch.Proofs.GcsBuilder
+import Bch.Proofs.GcsHeap
 /-
 C14 — GCS filters are bit-exact Golomb-Rice encodings and serialise losslessly.
 Models: `Bch/Model/Gcs.lean`, `Bch/Model/GcsBuilder.lean`; SipHash-2-4 is the parameter `sip`,
 SHA-256 the parameter `sha256`. Lemmas: `Bch/Proofs/Gcs*.lean`.
+Last section: which memory a filter object holds and hands out (`Bch/Model/GcsHeap.lean` on the
+slice/heap semantics of `Bch/Model/SliceHeap.lean`), immutability (also the GCS clause of C20).
 -/
 namespace Bch.Props.C14
 open Bch Bch.Model Bch.Model.Gcs
@@ -361,5 +364,362 @@ def toyBlock : List GcsBuilder.Tx :=
 
 example : ((GcsBuilder.basicEntries toyBlock).foldl (fun b d => step b (.addEntry d))
     (withKeyPM [] 19 784931)).data = [[0x51], [0xbb, 1, 0, 0, 0], [0x52]] := by decide
+
+/-! ## memory: a filter owns its bytes, hands out only fresh copies, and is never written
+
+`Bch/Model/GcsHeap.lean` places `gcs.Filter` on the Go slice/heap semantics of
+`Bch/Model/SliceHeap.lean`: a heap is the list of all `[]byte` backing arrays, a filter object
+`FilterObj` holds `n`, `p`, `modulusNP` by value and `filterData` as a slice header
+`(buf, off, len, cap)`; `GcsHeap.abs h f` is the value-level `Gcs.Filter` the object stands for in
+heap `h`.  "A filter rebuilt from any of its serialisations equals the original" (C14) and "being
+immutable, may be queried from any number of goroutines" (C20) need, besides the value-level
+theorems above, that nobody else can change the bytes the object reads — proved here.  Lemmas:
+`Bch/Proofs/GcsHeap.lean`. -/
+section Memory
+open Bch.Model.SliceHeap Bch.Model.GcsHeap
+
+/-- The call that took the heap from `h` to `h'` and returned the object `f`
+ (i) left every array of `h` in place with the same bytes (it wrote nothing reachable by anybody),
+ (ii) `f.filterData` has no capacity at all (the nil slice of an empty built filter) or lies in an
+      array that did not exist in `h`,
+ (iii) `f.filterData` lies inside its array,
+ (iv) **frame**: after any sequence of later stores — each `(b, fn)` replaces the array `b` by `fn`
+      of it, e.g. `fn = (writeAt · pos xs)` for any `pos`, `xs` — into arrays that existed in `h`
+      (everything the caller or anybody else could reach before the call, in particular the
+      argument slice), the object still stands for the same filter. -/
+def OwnsFresh (h h' : Heap) (f : FilterObj) : Prop :=
+  (∀ (b : Nat) (a : List UInt8), h[b]? = some a → h'[b]? = some a) ∧
+  (f.filterData.cap = 0 ∨ (h.length ≤ f.filterData.buf ∧ f.filterData.buf < h'.length)) ∧
+  (f.filterData.len ≤ f.filterData.cap ∧
+    f.filterData.off + f.filterData.cap ≤ (arr h' f.filterData.buf).length) ∧
+  (∀ ws : List (Nat × (List UInt8 → List UInt8)), (∀ w ∈ ws, w.1 < h.length) →
+    GcsHeap.abs (stores h' ws) f = GcsHeap.abs h' f)
+
+/-- `GcsHeap.abs` reads exactly one array: two heaps that agree on the array `f.filterData.buf`
+give the same filter (so `OwnsFresh` (ii) says *which* stores can matter at all). -/
+theorem C14_abs_footprint (h1 h2 : Heap) (f : FilterObj)
+    (e : arr h2 f.filterData.buf = arr h1 f.filterData.buf) :
+    GcsHeap.abs h2 f = GcsHeap.abs h1 f :=
+  Proofs.GcsHeap.abs_footprint h1 h2 f e
+
+/-- the allocation primitive `fresh` (`make` + `copy`) yields an owned slice, for any scalars -/
+theorem C14_fresh_owns (h : Heap) (n p : Nat) (M : UInt64) (xs : List UInt8) :
+    OwnsFresh h (fresh h xs 0).1 ⟨n, p, M, (fresh h xs 0).2⟩ :=
+  ⟨Proofs.GcsHeap.fresh_pres h xs 0,
+   Or.inr (by rw [Proofs.GcsHeap.fresh_slice, Proofs.GcsHeap.fresh_length]; exact ⟨Nat.le_refl _, Nat.lt_succ_self _⟩),
+   Proofs.GcsHeap.fresh_wf h xs 0,
+   fun ws hw => Proofs.GcsHeap.abs_new_stores (h0 := h) _ (Proofs.GcsHeap.fresh_wf h xs 0)
+     (Proofs.GcsHeap.fresh_owned h xs 0) ws hw⟩
+
+/-- **C14_rebuilt_owns_its_bytes.**  For every heap, all `N`, `P`, `M` and every argument slice `d`
+(no assumption on it; for a slice inside its array `len(f.filterData) = len(d)`):
+
+`FromBytes` fails exactly when the value-level model fails, without touching the heap; otherwise it
+returns an object that stands for the value-level result on the bytes of `d`, whose `filterData` is
+the whole of a new array (index `h.length`, no spare capacity), and `OwnsFresh` holds: nothing that
+existed was written, and no later store into any array that existed before the call — in particular
+`h'.modify d.buf (writeAt · pos xs)` for arbitrary `pos`, `xs`, a store through the caller's slice
+— changes the filter the object stands for.  The same for `FromNBytes` (CompactSize read from the
+caller's slice, all three error branches). -/
+theorem C14_rebuilt_owns_its_bytes (h : Heap) (n p : Nat) (m : UInt64) (d : Slice) :
+    (match Gcs.FromBytes n p m (read h d) with
+      | .error e => fromBytes h n p m d = (h, .error e)
+      | .ok v => ∃ h' f, fromBytes h n p m d = (h', .ok f) ∧ GcsHeap.abs h' f = v ∧
+          f.filterData = ⟨h.length, 0, (read h d).length, (read h d).length⟩ ∧
+          (d.len ≤ d.cap ∧ d.off + d.cap ≤ (arr h d.buf).length → f.filterData.len = d.len) ∧
+          OwnsFresh h h' f ∧
+          (d.buf < h.length → ∀ (pos : Nat) (xs : List UInt8),
+            GcsHeap.abs (h'.modify d.buf (writeAt · pos xs)) f = v)) ∧
+    (match Gcs.FromNBytes p m (read h d) with
+      | .error e => fromNBytes h p m d = (h, .error e)
+      | .ok v => ∃ h' f, fromNBytes h p m d = (h', .ok f) ∧ GcsHeap.abs h' f = v ∧
+          f.filterData = ⟨h.length, 0, v.data.length, v.data.length⟩ ∧
+          OwnsFresh h h' f ∧
+          (d.buf < h.length → ∀ (pos : Nat) (xs : List UInt8),
+            GcsHeap.abs (h'.modify d.buf (writeAt · pos xs)) f = v)) := by
+  have key : ∀ (N : Nat) (s : Slice), ¬ p > 32 →
+      ∃ h' f, fromBytes h N p m s = (h', .ok f) ∧
+        GcsHeap.abs h' f = ⟨N, p, UInt64.ofNat N * m, read h s⟩ ∧
+        f.filterData = ⟨h.length, 0, (read h s).length, (read h s).length⟩ ∧
+        OwnsFresh h h' f ∧
+        (d.buf < h.length → ∀ (pos : Nat) (xs : List UInt8),
+          GcsHeap.abs (h'.modify d.buf (writeAt · pos xs)) f
+            = ⟨N, p, UInt64.ofNat N * m, read h s⟩) := by
+    intro N s hp
+    have ho := C14_fresh_owns h N p (UInt64.ofNat N * m) (read h s)
+    have ha := Proofs.GcsHeap.abs_fresh h N p (UInt64.ofNat N * m) (read h s) 0
+    refine ⟨_, _, Proofs.GcsHeap.fromBytes_ok h N p m s hp, ha,
+      Proofs.GcsHeap.fresh_slice h _ 0, ho, fun hd pos xs => ?_⟩
+    rw [← Proofs.GcsHeap.stores_single, ho.2.2.2 _ (by simpa using hd), ha]
+  refine ⟨?_, ?_⟩
+  · unfold Gcs.FromBytes
+    by_cases hp : p > 32
+    · rw [if_pos hp]; exact Proofs.GcsHeap.fromBytes_err h n p m d hp
+    · rw [if_neg hp]
+      obtain ⟨h', f, e, ha, hs, ho, hf⟩ := key n d hp
+      exact ⟨h', f, e, ha, hs, fun w => by rw [hs]; exact Proofs.SliceHeap.length_read w, ho, hf⟩
+  · unfold Gcs.FromNBytes fromNBytes
+    cases hr : Gcs.readVarInt (read h d) with
+    | none => rfl
+    | some r =>
+      obtain ⟨N, rest⟩ := r
+      simp only []
+      by_cases hN : N ≥ 2^32
+      · rw [if_pos hN, if_pos hN]
+      · rw [if_neg hN, if_neg hN]
+        unfold Gcs.FromBytes
+        by_cases hp : p > 32
+        · rw [if_pos hp, Proofs.GcsHeap.fromBytes_err h N p m _ hp]
+        · rw [if_neg hp]
+          obtain ⟨h', f, e, ha, hs, ho, hf⟩ :=
+            key N (sliceFrom d ((read h d).length - rest.length)) hp
+          rw [Proofs.GcsHeap.read_sliceFrom, Proofs.GcsHeap.readVarInt_rest hr] at ha hs hf
+          rw [e]
+          exact ⟨h', f, rfl, ha, hs, ho, hf⟩
+
+/-- `BuildGCSFilter` on the heap (elements of `data` read through arbitrary slices, bit stream
+grown by `append` with an arbitrary growth policy `g`): errors as the value-level model, heap
+untouched; otherwise the object stands for the value-level filter and `OwnsFresh` holds — the
+stream buffer is the filter's alone. -/
+theorem C14_built_owns_its_bytes (sip : Bytes → UInt64) (g : Nat → Nat) (h : Heap) (P : Nat)
+    (M : UInt64) (data : List Slice) :
+    match Gcs.BuildGCSFilter sip P M (data.map (read h)) with
+      | .error e => build sip g h P M data = (h, .error e)
+      | .ok v => ∃ h' f, build sip g h P M data = (h', .ok f) ∧ GcsHeap.abs h' f = v ∧
+          OwnsFresh h h' f := by
+  cases hb : Gcs.BuildGCSFilter sip P M (data.map (read h)) with
+  | error e => exact Proofs.GcsHeap.build_err sip g h P M data e hb
+  | ok v =>
+    obtain ⟨st, hr⟩ := Proofs.GcsHeap.stream_spec g h v.data
+    refine ⟨_, _, Proofs.GcsHeap.build_ok sip g h P M data v hb, ?_, st.pres, ?_, st.wf,
+      fun ws hw => Proofs.GcsHeap.abs_new_stores (h0 := h) _ st.wf st.owned ws hw⟩
+    · simp only [GcsHeap.abs, hr]
+    · rcases Nat.eq_zero_or_pos (appendEach g h Slice.nil v.data).2.cap with hc | hc
+      · exact Or.inl hc
+      · refine Or.inr ⟨?_, Proofs.SliceHeap.buf_lt_of_wf st.wf hc⟩
+        rcases st.owned with o | o
+        · exact absurd o (by omega)
+        · exact o
+
+/-- What an accessor call that took the heap from `h` to `h'` and returned the slice `s` did:
+ (i) every array of `h` is unchanged — it wrote nothing of the receiver (nor of anything else),
+ (ii) exactly one array was allocated and `s` starts at its first byte: `s` lives in an array that
+      did not exist before the call,
+ (iii) `s` lies inside that array and (iv) holds `content`,
+ (v) every filter object `f'` built earlier (its slice lies inside its array in `h`; the receiver
+      is one of them) stands for the same filter after the call, and still does after any
+      sequence of stores into arrays that did not exist in `h` — through the returned slice, its
+      spare capacity, or anything allocated later. -/
+def FreshResult (h h' : Heap) (s : Slice) (content : Bytes) : Prop :=
+  (∀ (b : Nat) (a : List UInt8), h[b]? = some a → h'[b]? = some a) ∧
+  (h'.length = h.length + 1 ∧ s.buf = h.length ∧ s.off = 0) ∧
+  (s.len ≤ s.cap ∧ s.off + s.cap ≤ (arr h' s.buf).length) ∧
+  read h' s = content ∧
+  (∀ f' : FilterObj,
+    (f'.filterData.len ≤ f'.filterData.cap ∧
+      f'.filterData.off + f'.filterData.cap ≤ (arr h f'.filterData.buf).length) →
+    GcsHeap.abs h' f' = GcsHeap.abs h f' ∧
+    ∀ ws : List (Nat × (List UInt8 → List UInt8)), (∀ w ∈ ws, h.length ≤ w.1) →
+      GcsHeap.abs (stores h' ws) f' = GcsHeap.abs h f')
+
+/-- the allocation primitive `fresh` (`make` + `copy`, any spare capacity) yields a fresh result -/
+theorem C14_fresh_result (h : Heap) (xs : List UInt8) (sp : Nat) :
+    FreshResult h (fresh h xs sp).1 (fresh h xs sp).2 xs :=
+  ⟨Proofs.GcsHeap.fresh_pres h xs sp,
+   ⟨Proofs.GcsHeap.fresh_length h xs sp, by rw [Proofs.GcsHeap.fresh_slice],
+    by rw [Proofs.GcsHeap.fresh_slice]⟩,
+   Proofs.GcsHeap.fresh_wf h xs sp,
+   Proofs.GcsHeap.fresh_read h xs sp,
+   fun f' w =>
+     ⟨Proofs.GcsHeap.abs_old_stores (Proofs.GcsHeap.fresh_pres h xs sp) f' w [] (by simp),
+      fun ws hw => Proofs.GcsHeap.abs_old_stores (Proofs.GcsHeap.fresh_pres h xs sp) f' w ws hw⟩⟩
+
+/-- **C14_accessors_fresh.**  For every heap, every object and every buffer growth policy `g`:
+`Bytes()`, `PBytes()`, `NBytes()`, `NPBytes()` each return a slice of a newly allocated array
+holding the value-level serialisation of the filter the receiver stands for, write nothing that
+existed before (so `abs h' f = abs h f` for the receiver and every other earlier object), and no
+store through the returned slice can change any earlier object. -/
+theorem C14_accessors_fresh (g : Nat → Nat) (h : Heap) (f : FilterObj) :
+    FreshResult h (bytes h f).1 (bytes h f).2 (GcsHeap.abs h f).data ∧
+    FreshResult h (pBytes h f).1 (pBytes h f).2 (Gcs.PBytes (GcsHeap.abs h f)) ∧
+    FreshResult h (nBytes g h f).1 (nBytes g h f).2 (Gcs.NBytes (GcsHeap.abs h f)) ∧
+    FreshResult h (nPBytes g h f).1 (nPBytes g h f).2 (Gcs.NPBytes (GcsHeap.abs h f)) :=
+  ⟨C14_fresh_result h _ _, C14_fresh_result h _ _, C14_fresh_result h _ _,
+   C14_fresh_result h _ _⟩
+
+/-- **Queries write nothing** (the GCS clause of C20).  `Match`, `ZipMatchAny`, `HashMatchAny`,
+`MatchAny` decode a fresh copy of `filterData`: every array that existed is unchanged (hence every
+filter object, the receiver included, stands for the same filter afterwards — `FreshResult` (v) /
+`C14_abs_footprint`), and for arguments inside their arrays the answer is the value-level answer on
+the filter the receiver stands for. -/
+theorem C14_queries_write_nothing (sip : Bytes → UInt64) (h : Heap) (f : FilterObj) (d : Slice)
+    (data : List Slice) :
+    ((∀ (b : Nat) (a : List UInt8), h[b]? = some a → (matchH sip h f d).1[b]? = some a) ∧
+     (∀ (b : Nat) (a : List UInt8), h[b]? = some a → (zipMatchAnyH sip h f data).1[b]? = some a) ∧
+     (∀ (b : Nat) (a : List UInt8), h[b]? = some a → (hashMatchAnyH sip h f data).1[b]? = some a) ∧
+     (∀ (b : Nat) (a : List UInt8), h[b]? = some a → (matchAnyH sip h f data).1[b]? = some a)) ∧
+    ((d.len ≤ d.cap ∧ d.off + d.cap ≤ (arr h d.buf).length) →
+      (matchH sip h f d).2 = Gcs.Match sip (GcsHeap.abs h f) (read h d)) ∧
+    ((∀ s ∈ data, s.len ≤ s.cap ∧ s.off + s.cap ≤ (arr h s.buf).length) →
+      (zipMatchAnyH sip h f data).2 = Gcs.ZipMatchAny sip (GcsHeap.abs h f) (data.map (read h)) ∧
+      (hashMatchAnyH sip h f data).2 = Gcs.HashMatchAny sip (GcsHeap.abs h f) (data.map (read h)) ∧
+      (matchAnyH sip h f data).2 = Gcs.MatchAny sip (GcsHeap.abs h f) (data.map (read h))) := by
+  have pb : Proofs.SliceHeap.Pres h (bytes h f).1 := Proofs.GcsHeap.fresh_pres h _ 0
+  have pz : Proofs.SliceHeap.Pres h (zipMatchAnyH sip h f data).1 := by
+    unfold zipMatchAnyH; split
+    · exact Proofs.SliceHeap.Pres.refl h
+    · exact pb
+  have ph : Proofs.SliceHeap.Pres h (hashMatchAnyH sip h f data).1 := by
+    unfold hashMatchAnyH; split
+    · exact Proofs.SliceHeap.Pres.refl h
+    · exact pb
+  have vz : (∀ s ∈ data, Proofs.SliceHeap.WF h s) →
+      (zipMatchAnyH sip h f data).2 = Gcs.ZipMatchAny sip (GcsHeap.abs h f) (data.map (read h)) := by
+    intro w
+    unfold zipMatchAnyH Gcs.ZipMatchAny
+    by_cases he : data.isEmpty = true
+    · have : (data.map (read h)).isEmpty = true := by simpa using he
+      rw [if_pos he, if_pos this]
+    · have : ¬ (data.map (read h)).isEmpty = true := by simpa using he
+      rw [if_neg he, if_neg this]
+      simp only [Proofs.GcsHeap.viaCopy_bytes, Proofs.GcsHeap.map_read_pres pb data w, if_neg this]
+  have vh : (∀ s ∈ data, Proofs.SliceHeap.WF h s) →
+      (hashMatchAnyH sip h f data).2 = Gcs.HashMatchAny sip (GcsHeap.abs h f) (data.map (read h)) := by
+    intro w
+    unfold hashMatchAnyH Gcs.HashMatchAny
+    by_cases he : data.isEmpty = true
+    · have : (data.map (read h)).isEmpty = true := by simpa using he
+      rw [if_pos he, if_pos this]
+    · have : ¬ (data.map (read h)).isEmpty = true := by simpa using he
+      rw [if_neg he, if_neg this]
+      simp only [Proofs.GcsHeap.viaCopy_bytes, Proofs.GcsHeap.map_read_pres pb data w, if_neg this]
+  refine ⟨⟨pb, pz, ph, ?_⟩, fun w => ?_, fun w => ⟨vz w, vh w, ?_⟩⟩
+  · unfold matchAnyH; split
+    · exact ph
+    · exact pz
+  · show Gcs.Match sip (viaCopy (bytes h f).1 f (bytes h f).2) (read (bytes h f).1 d) = _
+    rw [Proofs.GcsHeap.viaCopy_bytes, pb.read_wf w]
+  · unfold matchAnyH Gcs.MatchAny
+    have hn : (GcsHeap.abs h f).n = f.n := rfl
+    rw [hn, List.length_map]
+    split
+    · exact vh w
+    · exact vz w
+
+/-- **Round trip on the heap** (the theorems above compose): serialise an object (inside its
+array, `N < 2^32`, `P ≤ 32`, modulus `N·M`) with `NBytes()` and rebuild it with `FromNBytes` from the
+returned slice.  The new object stands for the same filter as the original, the original still
+stands for what it stood for, the two objects and the serialisation occupy three different arrays,
+and whatever is later stored into the serialisation or into any array that existed before changes
+the rebuilt object not at all. -/
+theorem C14_heap_roundtrip (g : Nat → Nat) (h : Heap) (f : FilterObj) (M : UInt64)
+    (hw : f.filterData.len ≤ f.filterData.cap ∧
+      f.filterData.off + f.filterData.cap ≤ (arr h f.filterData.buf).length)
+    (hn : f.n < 2^32) (hp : f.p ≤ 32) (hM : f.modulusNP = UInt64.ofNat f.n * M) :
+    ∃ h2 f2, fromNBytes (nBytes g h f).1 f.p M (nBytes g h f).2 = (h2, .ok f2) ∧
+      GcsHeap.abs h2 f2 = GcsHeap.abs h f ∧ GcsHeap.abs h2 f = GcsHeap.abs h f ∧
+      (nBytes g h f).2.buf = h.length ∧ f2.filterData.buf = h.length + 1 ∧
+      (f.filterData.len = 0 ∨ f.filterData.buf < h.length) ∧
+      ∀ ws : List (Nat × (List UInt8 → List UInt8)), (∀ w ∈ ws, w.1 ≤ h.length) →
+        GcsHeap.abs (stores h2 ws) f2 = GcsHeap.abs h f := by
+  obtain ⟨p1, ⟨l1, b1, _⟩, _, r1, o1⟩ := (C14_accessors_fresh g h f).2.2.1
+  have t := (C14_rebuilt_owns_its_bytes (nBytes g h f).1 0 f.p M (nBytes g h f).2).2
+  rw [r1, Proofs.Gcs.FromNBytes_NBytes _ f.p M hn hp] at t
+  obtain ⟨h2, f2, e, ha, hs, ho, _⟩ := t
+  have hv : (⟨(GcsHeap.abs h f).n, f.p, UInt64.ofNat (GcsHeap.abs h f).n * M, (GcsHeap.abs h f).data⟩ : Filter)
+      = GcsHeap.abs h f := by
+    show (⟨f.n, f.p, UInt64.ofNat f.n * M, _⟩ : Filter) = ⟨f.n, f.p, f.modulusNP, _⟩
+    rw [hM]; rfl
+  rw [hv] at ha
+  refine ⟨h2, f2, e, ha, ?_, b1, by rw [hs, l1], Proofs.GcsHeap.wf_old_cases hw, fun ws hws => ?_⟩
+  · have := Proofs.GcsHeap.abs_old_stores (Proofs.SliceHeap.Pres.trans p1 ho.1) f hw [] (by simp)
+    exact this
+  · rw [ho.2.2.2 ws (fun w hw' => by rw [l1]; have := hws w hw'; omega), ha]
+
+/-! ### non-vacuity and the negative witness, on a concrete heap
+
+Array 0 holds the N-prefixed serialisation `[3, 129, 136]` of the toy filter of the section above
+(N = 3, P = 3, M = 5) plus one spare byte; the caller's slices `wD = a[1:3]` (the raw filter bytes,
+capacity 3) and `wND = a[0:3]`. -/
+def wHeap : Heap := [[3, 129, 136, 7], [42]]
+def wD : Slice := ⟨0, 1, 2, 3⟩
+def wND : Slice := ⟨0, 0, 3, 4⟩
+
+-- the slices are in bounds, lie in an array of the heap, and read what they should
+example : (wD.len ≤ wD.cap ∧ wD.off + wD.cap ≤ (arr wHeap wD.buf).length) ∧ wD.buf < wHeap.length ∧
+    read wHeap wD = [129, 136] ∧ read wHeap wND = [3, 129, 136] := by decide
+
+-- `FromBytes` / `FromNBytes` on it: both `.ok` branches of `C14_rebuilt_owns_its_bytes` are taken,
+-- a new array 2 holds the copy, and the object stands for the toy filter
+example : Gcs.FromBytes 3 3 5 (read wHeap wD) = .ok ⟨3, 3, 15, [129, 136]⟩ ∧
+    Gcs.FromNBytes 3 5 (read wHeap wND) = .ok ⟨3, 3, 15, [129, 136]⟩ := by
+  simp [Gcs.FromNBytes, Gcs.readVarInt, Gcs.FromBytes, wHeap, wD, wND, SliceHeap.read, SliceHeap.arr]
+
+example : fromBytes wHeap 3 3 5 wD
+    = ([[3, 129, 136, 7], [42], [129, 136]], .ok ⟨3, 3, 15, ⟨2, 0, 2, 2⟩⟩) := by decide +kernel
+
+example : fromNBytes wHeap 3 5 wND
+    = ([[3, 129, 136, 7], [42], [129, 136]], .ok ⟨3, 3, 15, ⟨2, 0, 2, 2⟩⟩) := by decide +kernel
+
+-- … and the error branches
+example : fromBytes wHeap 3 33 5 wD = (wHeap, .error .pTooBig) ∧
+    fromNBytes wHeap 33 5 wND = (wHeap, .error .pTooBig) ∧
+    fromNBytes wHeap 3 5 ⟨1, 0, 0, 1⟩ = (wHeap, .error .varint) := by decide +kernel
+
+-- the frame clause on the witness: overwriting the caller's whole array afterwards is not seen
+example : GcsHeap.abs ([[3, 129, 136, 7], [42], [129, 136]].modify wD.buf (writeAt · 0 [0, 0, 0, 0]))
+      ⟨3, 3, 15, ⟨2, 0, 2, 2⟩⟩ = ⟨3, 3, 15, [129, 136]⟩ := by decide +kernel
+
+-- the accessors on the rebuilt object (heap with three arrays): each result is in the new array 3
+example :
+    let h' : Heap := [[3, 129, 136, 7], [42], [129, 136]]
+    let f : FilterObj := ⟨3, 3, 15, ⟨2, 0, 2, 2⟩⟩
+    (f.filterData.len ≤ f.filterData.cap ∧
+      f.filterData.off + f.filterData.cap ≤ (arr h' f.filterData.buf).length) ∧
+    bytes h' f = (h' ++ [[129, 136]], ⟨3, 0, 2, 2⟩) ∧
+    pBytes h' f = (h' ++ [[3, 129, 136]], ⟨3, 0, 3, 3⟩) ∧
+    nBytes (fun n => n) h' f = (h' ++ [[3, 129, 136, 0, 0, 0]], ⟨3, 0, 3, 6⟩) ∧
+    nPBytes (fun _ => 0) h' f = (h' ++ [[3, 3, 129, 136]], ⟨3, 0, 4, 4⟩) := by decide +kernel
+
+/-- **C14_aliasing_is_observable** (negative witness).  The seeded defect `f.filterData = d`
+(`fromBytesAliasing`) returns, on the same arguments, an object that stands for the *same* filter
+as the correct `fromBytes` — no value-level test distinguishes them — but one store through the
+caller's slice (`d[1] = 0`, i.e. position 2 of array 0) changes the filter the object stands for,
+while the object of the correct `fromBytes` is unaffected by the same store.  So
+`C14_rebuilt_owns_its_bytes` is not true of every implementation with the right values. -/
+theorem C14_aliasing_is_observable :
+    ∃ fa f h', fromBytesAliasing wHeap 3 3 5 wD = (wHeap, .ok fa) ∧
+      fromBytes wHeap 3 3 5 wD = (h', .ok f) ∧
+      GcsHeap.abs wHeap fa = ⟨3, 3, 15, [129, 136]⟩ ∧ GcsHeap.abs h' f = ⟨3, 3, 15, [129, 136]⟩ ∧
+      GcsHeap.abs (wHeap.modify wD.buf (writeAt · 2 [0])) fa = ⟨3, 3, 15, [129, 0]⟩ ∧
+      GcsHeap.abs (wHeap.modify wD.buf (writeAt · 2 [0])) fa ≠ GcsHeap.abs wHeap fa ∧
+      GcsHeap.abs (h'.modify wD.buf (writeAt · 2 [0])) f = GcsHeap.abs h' f :=
+  ⟨⟨3, 3, 15, wD⟩, ⟨3, 3, 15, ⟨2, 0, 2, 2⟩⟩, [[3, 129, 136, 7], [42], [129, 136]],
+    by decide +kernel, by decide +kernel, by decide +kernel, by decide +kernel, by decide +kernel,
+    by decide +kernel, by decide +kernel⟩
+
+/-- the aliasing object violates clause (ii)/(iv) of `OwnsFresh` -/
+example : ¬ OwnsFresh wHeap wHeap ⟨3, 3, 15, wD⟩ := by
+  intro ⟨_, _, _, hf⟩
+  have := hf [(0, (writeAt · 2 [0]))] (by decide)
+  revert this
+  decide +kernel
+
+-- a query on the witness (argument slice `⟨1, 0, 1, 1⟩` = `[42]`, inside its array): the heap grows
+-- by the private copy only, the answer is the model's
+example :
+    let h' : Heap := [[3, 129, 136, 7], [42], [129, 136]]
+    let q : Slice := ⟨1, 0, 1, 1⟩
+    (q.len ≤ q.cap ∧ q.off + q.cap ≤ (arr h' q.buf).length) ∧
+    matchH toySip h' ⟨3, 3, 15, ⟨2, 0, 2, 2⟩⟩ q
+      = (h' ++ [[129, 136]], Gcs.Match toySip ⟨3, 3, 15, [129, 136]⟩ [42]) ∧
+    (∀ s ∈ [q, wD], s.len ≤ s.cap ∧ s.off + s.cap ≤ (arr h' s.buf).length) ∧
+    (matchAnyH toySip h' ⟨3, 3, 15, ⟨2, 0, 2, 2⟩⟩ [q, wD]).1 = h' ++ [[129, 136]] := by
+  decide +kernel
+
+-- the hypotheses of `C14_heap_roundtrip` on the witness object
+example : (3 : Nat) < 2^32 ∧ (3 : Nat) ≤ 32 ∧ (15 : UInt64) = UInt64.ofNat 3 * 5 := by decide
+
+end Memory
 
 end Bch.Props.C14
